@@ -70,7 +70,7 @@ def values(rng, shape, dtype, style=None, nan_p=None, inf_p=None):
     nprs = np.random.RandomState(rng.getrandbits(32))
     dt = np.dtype(dtype)
     if style is None:
-        style = rng.choice(["smooth", "ints", "patches", "pow2", "big", "neg", "steps"])
+        style = rng.choice(["smooth", "ints", "patches", "pow2", "big", "neg", "steps", "tenths", "thirds"])
     n = int(np.prod(shape))
     if style == "smooth":
         a = nprs.uniform(0, 100, n)
@@ -84,6 +84,12 @@ def values(rng, shape, dtype, style=None, nan_p=None, inf_p=None):
         a = nprs.choice([16777217.0, 16777216.0, 3.0, 1e6 + 0.5, 255.0, 65537.0], n)
     elif style == "neg":
         a = nprs.uniform(-50, 50, n)
+    elif style == "tenths":
+        # a non-dyadic lattice: class edges / thresholds computed in float32 vs float64 fall on
+        # different sides of cells that sit exactly on them
+        a = nprs.randint(0, 31, n) * 0.1
+    elif style == "thirds":
+        a = nprs.randint(0, 13, n) / 3.0
     else:  # steps
         a = np.arange(n, dtype=float) * rng.choice([0.5, 1.0, 3.0]) + rng.choice([0, 7, 100])
     if dt.kind == "u":
